@@ -26,7 +26,7 @@ import types
 
 import common as C
 
-IMPORTS = "From DJC Require Import Lib.Base Bind.Model."
+IMPORTS = "From DJC Require Import Lib.Base Bind.Model Bind.Flags."
 CHECK_BOTH = "check_both"
 CHECK_VALIDATE = "check_validate"
 SV, CV = 1000, 1001          # how `self` / `context` are printed
@@ -40,6 +40,7 @@ T_NONSTR = "c11-nonstring-spread-key"                # fixed in 87d326f: a sprea
 T_SPREAD_KIND = "c11-spread-container-kind"          # a spread value that is a Mapping but no dict / an iterable but no list
 T_WRAPPED_CALLABLE = "c11-wrapped-callable-signature"   # render() = callable object without __code__ carrying __wrapped__ (class-based decorator)
 T_DECORATED = "c11-decorated-render"                    # render() = function decorated with functools.wraps
+T_FLAGS = "c11-flag-extraction"                         # the tag declares flags and an attribute is written with a bare / filtered / spread / quoted word
 T_OTHER = "c11-other"
 
 
@@ -146,6 +147,9 @@ class Lit:
            "Definition EI {A} : res A := Err IndexError.\nDefinition EO {A} : res A := Err OtherError.\n"
            "Definition Cs (u : bool) (F : sig) (c : list targ) (p t : res binding) : both_case := (u, F, c, p, t).\n"
            "Definition Cd (u : bool) (F : sig) (c : list targ) (p : res binding) : both_case := (u, F, c, p, p).\n"
+           "Definition Fa := mkA.\n"
+           "Definition Cf (u : bool) (F : sig) (al : list str) (at_ : list tattr) (p t : res binding) (fl : option (list str)) : flag_case "
+           ":= (u, F, al, at_, p, t, fl).\n"
            "Definition Cp (F : sig) (c : list targ) (p : res binding) : pybind_case := (F, c, p).\n"
            "Definition Cv (u : bool) (F : sig) (ps : list (option str * N)) (ex : list (str * N)) (r : res binding) "
            ": validate_case := (u, F, ps, ex, r).\n")
@@ -210,6 +214,36 @@ class Lit:
             # short form (parsing the literals dominates coqc time): self and context were bound to the node and the Context
             return "(Bo %s %s %s)" % (self.sig(sig), self.kvs(vals[2:]), tail)
         return "(B %s %s)" % (self.kvs(vals), tail)
+
+    def attrs(self, call):
+        """the call as the attribute list of Bind/Flags.v: how each attribute is written + the argument it resolves to"""
+        out = []
+        for i, a in enumerate(call):
+            if a[0] == "pos":
+                out.append("Fa (VOther %s) (TPos %d)" % (self.s("%d" % a[1]), a[1]))
+            elif a[0] == "kw":
+                out.append("Fa (VOther %s) (TKw %s %d)" % (self.s("%d" % a[2]), self.s(a[1]), a[2]))
+            elif a[0] == "sl":
+                out.append("Fa (VBare %s) (TSpreadL %s)" % (self.s(spread_var(a, i)), self.lst(["%d" % v for v in a[1]])))
+            elif a[0] == "sd":
+                out.append("Fa (VBare %s) (TSpreadD %s)" % (self.s(spread_var(a, i)), self.dkvs(a[1])))
+            elif a[0] == "flag":
+                out.append("Fa (VBare %s) (TPos 0)" % self.s(a[1]))
+            elif a[0] == "var":
+                out.append("Fa (VBare %s) (TPos %d)" % (self.s(a[1]), a[2]))
+            elif a[0] == "varf":
+                out.append("Fa (VFiltered %s %s) (TPos %d)" % (self.s(a[1]), self.s(a[2]), a[3]))
+            elif a[0] == "posq":
+                out.append("Fa (VQuoted %s) (TPos %d)" % (self.s(a[1]), WEIRD))
+            elif a[0] == "kwv":
+                out.append("Fa (VBare %s) (TKw %s %d)" % (self.s(a[2]), self.s(a[1]), a[3]))
+            else:
+                raise ValueError(a)
+        return self.lst(out)
+
+    def flagged(self, use_code, sig, call, py, tag, flags_obs):
+        return "Cf %s %s %s %s %s %s %s" % (C.cbool(use_code), self.sig(sig), self.lst([self.s(f) for f in sig["flags"]]), self.attrs(call),
+                                           self.obs(py, sig), self.obs(tag, sig), self.opt(flags_obs, lambda l: self.lst([self.s(f) for f in l])))
 
     def both(self, use_code, sig, call, py, tag):
         if py == tag:
@@ -343,6 +377,30 @@ def spread_kind(a):
     return a[2] if len(a) > 2 else ("list" if a[0] == "sl" else "dict")
 
 
+def spread_var(a, i):
+    """name of the context variable a spread is written with ( ...name ); a 4th element overrides the default l<i> / d<i>"""
+    return a[3] if len(a) > 3 else ("l%d" % i if a[0] == "sl" else "d%d" % i)
+
+
+def consistent(call):
+    """every context variable of the call has ONE value (a flag-named variable may be used several times)"""
+    seen = {}
+    for i, a in enumerate(call):
+        if a[0] == "var":
+            item = (a[1], ("scalar", a[2]))
+        elif a[0] == "varf":
+            item = (a[1], ("scalar", a[3]))
+        elif a[0] == "kwv":
+            item = (a[2], ("scalar", a[3]))
+        elif a[0] in ("sl", "sd"):
+            item = (spread_var(a, i), ("spread", i))
+        else:
+            continue
+        if seen.setdefault(item[0], item[1]) != item[1]:
+            return False
+    return True
+
+
 def spread_value(a):
     return make_iterable(a[1], spread_kind(a)) if a[0] == "sl" else make_mapping(a[1], spread_kind(a))
 
@@ -357,9 +415,30 @@ def entries_of(call):
             es.append((a[1], a[2]))
         elif a[0] == "sl":
             es.extend((None, v) for v in a[1])
-        else:
+        elif a[0] == "sd":
             es.extend((k if isinstance(k, str) else NonStr(k), v) for k, v in a[1])
+        elif a[0] == "flag":            # a bare word that the tag declares as flag: not an argument
+            pass
+        elif a[0] == "var":             # ["var", name, v]: positional argument written as the variable `name`
+            es.append((None, a[2]))
+        elif a[0] == "varf":            # ["varf", name, filter, v]: positional argument written `name|filter` (value-preserving filter)
+            es.append((None, a[3]))
+        elif a[0] == "posq":            # ["posq", text]: positional argument written "text" (a str; shown as WEIRD on both sides)
+            es.append((None, WEIRD))
+        elif a[0] == "kwv":             # ["kwv", key, name, v]: keyword written key=name
+            es.append((a[1], a[3]))
+        else:
+            raise ValueError(a)
     return es
+
+
+def written_flags(sig, call):
+    return [a[1] for a in call if a[0] == "flag"]
+
+
+def expected_flags(sig, call):
+    """the flags the node must report: exactly the declared flags written as bare words (sorted list of those that are on)"""
+    return sorted(set(written_flags(sig, call)))
 
 
 def has_nonstr(call):
@@ -419,11 +498,14 @@ def run_python(fn, out, sig, call):
     that exists for non-identifier keys; binding is the same as k=v), a spread is written *A<i> resp. **A<i> with the very kind
     of object the tag receives (Python accepts any iterable after * and any Mapping after **).  When, after flattening, a positional
     argument follows a keyword one, the flattened spelling is used (so that the expected outcome is SyntaxError, see assumptions)."""
+    wf = written_flags(sig, call)
+    if len(wf) != len(set(wf)):
+        return ("err", "TemplateSyntaxError")      # computed expectation: a flag written twice is refused when the template is parsed
     es = entries_of(call)
     env = {"f": fn, "S": SELF_OBJ, "X": CTX_OBJ}
     seen_kw = star_after_kw = False
     for a in call:
-        if a[0] in ("kw", "sd"):
+        if a[0] in ("kw", "sd", "kwv"):
             seen_kw = True
         elif a[0] == "sl" and seen_kw:
             star_after_kw = True      # `f(**{..}, *xs)` is not even valid syntax; an EMPTY list spread there contributes nothing
@@ -436,6 +518,12 @@ def run_python(fn, out, sig, call):
                 parts.append(", %d" % a[1])
             elif a[0] == "kw":
                 parts.append(", **{%r: %d}" % (a[1], a[2]))
+            elif a[0] == "flag":
+                pass
+            elif a[0] in ("var", "varf", "posq"):
+                parts.append(", %d" % entries_of([a])[0][1])
+            elif a[0] == "kwv":
+                parts.append(", **{%r: %d}" % (a[1], a[3]))
             else:
                 env["A%d" % i] = spread_value(a)
                 parts.append(", %sA%d" % ("*" if a[0] == "sl" else "**", i))
@@ -467,13 +555,17 @@ class Probe:
         Probe.counter[0] += 1
         self.tag = "c11p%d" % Probe.counter[0]
         self.lib = ct.register
+        flags = sig.get("flags")
         if variant == "decorator":
             self.fn = make_fn(sig, self.out)
-            template_tag(self.lib, tag=self.tag)(self.fn)
+            template_tag(self.lib, tag=self.tag, allowed_flags=list(flags) if flags else None)(self.fn)
             self.cls = self.fn._node
         else:
             self.fn = make_fn(sig, self.out) if variant == "class" else make_callable_obj(sig, self.out)
-            self.cls = type("C11Probe%d" % Probe.counter[0], (BaseNode,), {"tag": self.tag, "render": self.fn})
+            attrs = {"tag": self.tag, "render": self.fn}
+            if flags:
+                attrs["allowed_flags"] = list(flags)
+            self.cls = type("C11Probe%d" % Probe.counter[0], (BaseNode,), attrs)
             self.cls.register(self.lib)
 
     def close(self):
@@ -487,13 +579,27 @@ class Probe:
                 parts.append("%d" % a[1])
             elif a[0] == "kw":
                 parts.append("%s=%d" % (a[1], a[2]))
-            elif a[0] == "sl":
-                ctx["l%d" % i] = spread_value(a)
-                parts.append("...l%d" % i)
+            elif a[0] in ("sl", "sd"):
+                name = spread_var(a, i)
+                ctx[name] = spread_value(a)
+                parts.append("..." + name)
+            elif a[0] == "flag":
+                parts.append(a[1])
+            elif a[0] == "var":
+                ctx[a[1]] = a[2]
+                parts.append(a[1])
+            elif a[0] == "varf":
+                ctx[a[1]] = a[3]
+                parts.append("%s|%s" % (a[1], a[2]))
+            elif a[0] == "posq":
+                parts.append('"%s"' % a[1])
+            elif a[0] == "kwv":
+                ctx[a[2]] = a[3]
+                parts.append("%s=%s" % (a[1], a[2]))
             else:
-                ctx["d%d" % i] = spread_value(a)
-                parts.append("...d%d" % i)
+                raise ValueError(a)
         src = "{% " + " ".join([self.tag] + parts) + " %}"
+        self.last_flags = None
         kinds = [spread_kind(a) for a in call if a[0] in ("sl", "sd") and spread_kind(a) not in ("list", "dict")]
         if kinds:
             src += "   (spread values: %s)" % ", ".join(kinds)
@@ -505,6 +611,8 @@ class Probe:
             return ("err", type(e).__name__), src
         loc = self.out[0]
         n0 = self.sig["names"][0]
+        if isinstance(loc[n0], self.cls):
+            self.last_flags = sorted(f for f, on in loc[n0].flags.items() if on)      # what the node reports
         return canon_locals(self.sig, loc, loc[n0] if isinstance(loc[n0], self.cls) else None, context), src
 
 
@@ -515,6 +623,8 @@ def classify(sig, call, variant=None):
     es = entries_of(call)
     if sig.get("inner"):
         return T_WRAPPED_CALLABLE if variant == "callable" else T_DECORATED
+    if sig.get("flags") and any(a[0] in ("flag", "var", "varf", "posq", "kwv") or (a[0] in ("sl", "sd") and len(a) > 3) for a in call):
+        return T_FLAGS
     if any(isinstance(k, NonStr) for k, _ in es):
         return T_NONSTR
     npos = sum(1 for k, _ in es if k is None)
@@ -539,6 +649,9 @@ def oracle(sig, call, py, tag):
         if tag != py:
             return "the tag calls render() with other bindings than the Python call"
         return None
+    if py[1] == "TemplateSyntaxError":      # computed expectation (a flag written twice)
+        return None if tag == py else "a flag is written twice, the tag %s instead of raising TemplateSyntaxError" % (
+            "accepts" if tag[0] == "ok" else "raises " + tag[1])
     if tag[0] == "ok":
         return "Python rejects the call (%s), the tag accepts it" % py[1]
     if tag[1] not in ("TypeError", "SyntaxError"):
@@ -573,10 +686,72 @@ SELFCTX_POOL = ["self", "context", "type", "d", "e"]
 
 def rename_sig(sig, pool, lead_names=None):
     m = dict(zip(PNAMES, pool))
-    out = dict(sig, po=[[m[n], d] for n, d in sig["po"]], pk=[[m[n], d] for n, d in sig["pk"]], ko=[[m[n], d] for n, d in sig["ko"]])
+    out = dict(sig, po=[[m.get(n, n), d] for n, d in sig["po"]], pk=[[m.get(n, n), d] for n, d in sig["pk"]], ko=[[m.get(n, n), d] for n, d in sig["ko"]])
     if lead_names:
         out["names"] = list(lead_names)
     return out
+
+
+# ---- tags that declare flags: the arguments may be WRITTEN as words, and a word the tag declares is a flag only when it is bare ----
+FLAG_SETS = [["required", "default"], ["only"], ["required"]]
+FLAG_POOL = ["required", "only", "default", "d", "e"]      # parameters named like flags (then `required=1` is a keyword, `required` a flag)
+VAR_VALUE = {"required": 51, "default": 52, "only": 53, "x": 54}
+FILTERS = ["add:0", "default:0"]                            # value-preserving for the numbers used here
+
+
+def flag_alphabet(sig):
+    fl = sig["flags"]
+    names = param_names(sig)
+    k0 = names[0] if names else "u"
+    al = [("pos",), ("kw", k0)] + [("flag", f) for f in fl]
+    al += [("varf", f, FILTERS[j % 2]) for j, f in enumerate(fl)]
+    al += [("posq", fl[0]), ("kwv", k0, fl[-1]), ("slv", fl[0]), ("sdv", fl[-1]), ("var", "x")]
+    return al
+
+
+def concretise_flagged(sig, syms):
+    """like concretise, plus the written forms; returns None when a variable would need two values"""
+    call = []
+    for i, s in enumerate(syms):
+        if s[0] == "flag":
+            call.append(["flag", s[1]])
+        elif s[0] == "var":
+            call.append(["var", s[1], VAR_VALUE[s[1]]])
+        elif s[0] == "varf":
+            call.append(["varf", s[1], s[2], VAR_VALUE[s[1]]])
+        elif s[0] == "posq":
+            call.append(["posq", s[1]])
+        elif s[0] == "kwv":
+            call.append(["kwv", s[1], s[2], VAR_VALUE[s[2]]])
+        elif s[0] == "slv":
+            call.append(["sl", [100 + 10 * i, 101 + 10 * i], next_kind(SEQ_KINDS), s[1]])
+        elif s[0] == "sdv":
+            call.append(["sd", [["u", 100 + 10 * i]], next_kind(MAP_KINDS), s[1]])
+        else:
+            call.append(concretise(sig, [("pos",)] * i + [s])[-1])      # same values as the plain generator gives at position i
+    return call if consistent(call) else None
+
+
+def flagged_calls(sig, maxlen):
+    al = flag_alphabet(sig)
+    for L in range(1, maxlen + 1):
+        for syms in itertools.product(al, repeat=L):
+            if any(s[0] not in ("pos", "kw") for s in syms):      # the plain ones are covered on tags without flags
+                c = concretise_flagged(sig, syms)
+                if c is not None:
+                    yield c
+
+
+def random_flagged_call(rng, sig, maxlen=5):
+    al = flag_alphabet(sig) + [s for s in alphabet(sig, rich=True) if s[0] in ("kw", "sl", "sd")]
+    for _ in range(20):
+        syms = rng.choices(al, k=rng.randint(1, maxlen))
+        if rng.random() < 0.6:
+            syms.sort(key=lambda s: 0 if s[0] in ("pos", "sl", "slv", "var", "varf", "posq", "flag") else 1)
+        c = concretise_flagged(sig, syms)
+        if c is not None:
+            return c
+    return [["flag", sig["flags"][0]]]
 
 
 INNER_KINDS = ["inject", "rename", "defaults", "generic", "specific"]
@@ -734,6 +909,8 @@ def random_sig(rng, maxn=5):
         s = dict(s, lead_defaults=rng.choice([[None, 801], [800, 801]]))     # defaults reaching back into self / context
     if rng.random() < 0.15:
         s = with_inner(s, rng.choice(INNER_KINDS))                            # render() is a functools.wraps-style wrapper
+    elif rng.random() < 0.15:
+        s = dict(rename_sig(s, FLAG_POOL) if rng.random() < 0.4 else s, flags=rng.choice(FLAG_SETS))   # the tag declares flags
     return s
 
 
@@ -802,23 +979,32 @@ def exec_job(job):
         for call in calls:
             py = run_python(pyfn, pyout, sig, call)
             tag, src = probe.run(call)
-            out.append((py, tag, src))
+            out.append((py, tag, src, probe.last_flags))
     finally:
         probe.close()
     return probe.variant, probe.use_code, out
 
 
-def account(chk, sig, call, kind, variant, use_code, py, tag, src, terms, meta):
+def account(chk, sig, call, kind, variant, use_code, py, tag, src, terms, meta, flags_obs=None):
     """(parent) direct oracle, counting, and the case as a Coq term."""
     why = oracle(sig, call, py, tag)
+    if why is None and tag[0] == "ok" and flags_obs is not None and flags_obs != expected_flags(sig, call):
+        why = "node.flags reports %r, written as bare words: %r" % (flags_obs, expected_flags(sig, call))
     nt = nontrivial(sig, call, py)
     chk.count((sig_src(sig), tuple(map(repr, call))), nt, kind=kind,
               sample={"render": render_line(sig), "tag": src, "python": py, "tag_result": tag} if (nt and kind.startswith("random") and py[0] == "ok") else None)
     if why:
         chk.fail(classify(sig, call, variant), why, {"kind": "tag", "sig": sig, "call": call, "template": src, "variant": variant,
                                                      "render": render_line(sig), "python": py, "tag": tag})
+    if sig.get("flags") is not None:       # the flag family goes through the model of the parse-time step as well (Bind/Flags.v)
+        FTERMS.append(LIT.flagged(use_code, sig, call, py, tag, flags_obs))
+        FMETA.append((sig, call, py, tag, src + " [render() built as: %s]" % variant, flags_obs))
+        return
     terms.append(LIT.both(use_code, sig, call, py, tag))
     meta.append((sig, call, py, tag, src + " [render() built as: %s]" % variant))
+
+
+FTERMS, FMETA = [], []
 
 
 def run_jobs(chk, jobs, terms, meta):
@@ -828,8 +1014,8 @@ def run_jobs(chk, jobs, terms, meta):
         for (sig, calls, kind, idx), (variant, use_code, res) in zip(jobs, pool.imap(exec_job, jobs, chunksize=4)):
             if len(res) != len(calls):
                 raise C.HarnessError("worker returned %d results for %d calls" % (len(res), len(calls)))
-            for call, (py, tag, src) in zip(calls, res):
-                account(chk, sig, call, kind, variant, use_code, py, tag, src, terms, meta)
+            for call, (py, tag, src, flags_obs) in zip(calls, res):
+                account(chk, sig, call, kind, variant, use_code, py, tag, src, terms, meta, flags_obs)
 
 
 # ----------------------------------------------------------------------------------------------
@@ -910,6 +1096,7 @@ def run(tier, seed):
 
     # ---- 0. corpus: witnesses of fixed / reported defects, direct oracle first ----
     KIND_CTR[0] = 0
+    del FTERMS[:], FMETA[:]
     jobs = []
     for i, c in enumerate(load_corpus()):
         for v in range(3):      # BaseNode subclass, @template_tag, callable object (fallback path)
@@ -948,6 +1135,14 @@ def run(tier, seed):
             for v in range(3):
                 jobs.append((dsig, calls, "decorated-%s-n%d" % (Probe.VARIANTS[v], n), v))
 
+    # ---- 1b+. tags that DECLARE FLAGS: every shape n<=2 x every sequence <= 2 over {number, keyword, each flag as bare word, each flag
+    #           name as filtered variable, as quoted string, as keyword value, as spread variable, another variable} ----
+    for n in (0, 1, 2):
+        for sig in all_sigs(n):
+            idx += 1
+            fsig = dict(rename_sig(sig, FLAG_POOL) if idx % 4 == 0 else vary_names(sig, idx), flags=FLAG_SETS[idx % len(FLAG_SETS)])
+            jobs.append((fsig, list(flagged_calls(fsig, 2)), "flags-n%d-len<=2" % n, idx))
+
     # ---- 1c. structured, mostly valid longer calls on every shape n<=3 (n<=4 thorough), fast path and fallback ----
     for n in range(1, 5 if thorough else 4):
         for sig in all_sigs(n):
@@ -961,7 +1156,10 @@ def run(tier, seed):
     for _ in range(6000 if thorough else 700):
         sig = random_sig(rng, 5)
         idx += 1
-        jobs.append((sig, [random_call(rng, sig, 5) for _ in range(12)], "random", idx))
+        if sig.get("flags"):
+            jobs.append((sig, [random_flagged_call(rng, sig, 5) for _ in range(12)], "random-flags", idx))
+        else:
+            jobs.append((sig, [random_call(rng, sig, 5) for _ in range(12)], "random", idx))
     lap("generate")
     run_jobs(chk, jobs, terms, meta)
 
@@ -978,6 +1176,11 @@ def run(tier, seed):
             chk.disagree(which, {"kind": "tag", "sig": sig, "call": call, "template": src, "render": render_line(sig),
                                  "python": py, "tag": tag})
 
+    # the flag family: model of _extract_flags + binding (Bind/Flags.v) against the tag, the computed expectation and node.flags
+    for i in C.coq_eval_cases("C11", "flag", IMPORTS, "flag_case", "check_flagged", FTERMS, shard=4000, extra_defs=LIT.header())[:20]:
+        sig, call, py, tag, src, fobs = FMETA[i]
+        chk.disagree("flag extraction + binding: model (Bind/Flags.v) != tag / expectation",
+                     {"kind": "tag", "sig": sig, "call": call, "template": src, "render": render_line(sig), "python": py, "tag": tag, "flags": fobs})
     lap("coq-eval-tags")
     # ---- 3. validators called directly (fast path and fallback), incl. the built-in tags' render() ----
     vterms, vmeta = [], []
